@@ -138,7 +138,7 @@ fn engine_oracle(d: &D, w: usize, nested_suffix: bool) -> Result<(), String> {
 }
 
 fn part_layout(ev: &mut Ev, model: &mut Model, opts: &Opts) {
-    let n = opts.tier.pick(4000u64, 150_000u64);
+    let n = opts.tier.pick(12_000u64, 150_000u64);
     for i in 0..n {
         let mut r = Rng::for_case(opts.seed ^ 0xA17, i);
         let style = i % 4;
@@ -370,7 +370,7 @@ fn part_pipeline(ev: &mut Ev, opts: &Opts) {
     }
     ev.set_extra("corpus_sources", json!(corpus.len()));
     ev.set_extra("corpus_parseable", json!(good.len()));
-    let n = opts.tier.pick(2500u64, 120_000u64);
+    let n = opts.tier.pick(15_000u64, 120_000u64);
     for i in 0..n {
         let mut r = Rng::for_case(opts.seed ^ 0xC17, i);
         let (label, base) = &good[r.usize(good.len())];
